@@ -70,6 +70,9 @@ func NewSnippet(b []byte, opts ...SnippetOption) *Snippet {
 	// Work out the start and end lines of the snippet
 	snippet.start = max(snippet.line-snippet.padding, 1)
 	snippet.end = min(snippet.line+snippet.padding, len(linesRaw)-1)
+	// The line reported by the decoder can lie beyond the last line of the
+	// file as split here (e.g. files using other line terminators)
+	snippet.start = min(snippet.start, snippet.end+1)
 	snippet.linesRaw = linesRaw[snippet.start-1 : snippet.end]
 	snippet.linesHighlighted = linesHighlighted[snippet.start-1 : snippet.end]
 
